@@ -25,7 +25,7 @@ func propSampler(t *rapid.T) {
 	firstGood := -1
 	for i := 0; i < nc; i++ {
 		var c *big.Int
-		switch rapid.SampledFrom([]string{"0", "n", "n+1", "2^256-1", "n-1", "1", "drawn", ">=n"}).Draw(t, fmt.Sprintf("c%d", i)) {
+		switch gen.Sampled([]string{"0", "n", "n+1", "2^256-1", "n-1", "1", "drawn", ">=n"}).Draw(t, fmt.Sprintf("c%d", i)) {
 		case "0":
 			c = big.NewInt(0)
 		case "n":
